@@ -6,55 +6,201 @@
    [print_cmd_pinned] is knut print as pinned; [print_cmd] is knut print after
    findings/C09-multi-assertion.patch (JPrinter.print_day).
 
-   THE PROPERTY, in full (for pr = print_cmd l; it is FALSE for pr = print_cmd_pinned l, see
-   C09_multi_assertion_refuted):
+   THE PROPERTY (for pr = print_cmd l; it is FALSE for pr = print_cmd_pinned l, see
+   C09_multi_assertion_refuted), over the TEXT that knut print writes:
 
-     C09_accepted     : forall l ds text, lex_ok ds -> printed pr ds text ->
-                          exists ds', reparse text = MOk ds' /\ accepted l ds'
-     C09_idem         : ... /\ printed pr ds' text
-     C09_same_reports : ... /\ forall cfg, balance_csv cfg ds' = balance_csv cfg ds
-                            /\ forall cfg tc, balance_text cfg tc ds' = balance_text cfg tc ds
+     C09_accepted     : input_lex ss -> printed pr ss text ->
+                          exists ss', reparse text = MOk ss' /\ accepted l ss'            PROVED
+     C09_idem         : ... /\ printed pr ss' text                                       PROVED
+                        (both together: C09_normal_form : normal_form pr l text)
+     C09_same_reports : ... /\ forall cfg, balance_csv cfg ss' ~ balance_csv cfg ss
+                            /\ forall cfg tc, balance_text cfg tc ss' ~ balance_text cfg tc ss   PROVED
+                        (all of it for one and the same ss': C09_roundtrip)
+   [~] is "both commands fail, or the same bytes" (OrderCmd.ceq eq): the error of a failing balance
+   run legitimately depends on the order of the directives (C05_error_depends_on_order).  C05's
+   exclusion of conflicting price declarations is NOT needed: journal.Print keeps the order of a
+   day's prices (C09_printed_same_reports).
 
-   where lex_ok says what the parser guarantees of every journal it has read: names are non-empty
-   runs of letters/digits, descriptions are valid UTF-8 without a double quote, years are 0000..9999.
+   [input_lex ss] (Proofs/PrintLexInput.v) says what the parser guarantees of every journal it has
+   read: years 0000..9999; account segments and commodities are non-empty runs of Unicode letters
+   and digits; descriptions are valid UTF-8 without a double quote; a transaction has a booking,
+   an assertion a balance; an @accrue annotation has such an account and a window within years
+   0000..9999.  It is satisfiable (C09_input_lex_example: the journal of C09_example).
 
-   WHAT IS PROVED HERE (each closed under the global context), in layers:
-     layer 0  the pinned printer is refuted; the repaired printer passes on the witness and on a
-              journal with Unicode, accrual, targets, negative/trailing-zero amounts (vm_compute
-              through the model's parser)                         C09_multi_assertion_refuted,
-                                                                  C09_multi_assertion_fixed, C09_example
-     layer 1  per directive, at the model level: every directive knut's model layer creates is
-              reproduced exactly by re-creating it from what the printer writes for it
-              (pair_build of the printed debit half gives back both halves; accruals are already
-              expanded; targets kept)                             C09_txn_denoted, C09_directive_denoted
-              leaves: date, account name, decimal through ToModel C09_date_roundtrip,
-                                                                  C09_account_roundtrip, C09_decimal_roundtrip
-     layer 3/4, model level (no text): the directive list denoted by a journal is a normal form --
-              it loads to the same builder, hence is accepted iff the journal is, prints the same
-              bytes and gives the same balance reports, and denoting again changes nothing
-                                                                  C09_accepted_partial, C09_idem_partial,
-                                                                  C09_same_reports_partial, C09_denote_idem
-     the two printers agree exactly where no multi-balance assertion is followed by another
-              assertion of the same day                           C09_printers_agree
-   NOT PROVED (the gap between the partial and the full statements; all three are exercised by the
-   correspondence check on every run: ops C09.print / C09.tomodel, normal_form_b, same_report_b):
-     (a) reparse (print text) = the denoted directives in printed order: the context lemmas of
-         DESIGN B.3 for Model/Parser.v on JPrinter output (C09_date/account/decimal_roundtrip are
-         their ToModel halves);
-     (b) to_string (of_string (to_string q)) = to_string q (decimal text is a normal form; the
-         value half is C09_decimal_roundtrip) and invariance of check and reports under
-         value-equal quantities;
-     (c) invariance of builder, check and reports under the regrouping by day and kind and the
-         sorting of a day's transactions that printing performs (C05's permutation lemmas), and
-         idempotence of the sort. *)
+   HOW (each closed under the global context):
+     (a) the printed text is read back as the printed sequence with re-read quantities
+         (C09_reparse_printed): journal.Print's text is a woven text of the FORMAT printer
+         (Model/SynRender.v) whose gaps are runs of newlines, every leaf is in its lexical class,
+         and RoundTripFile.parse_woven (C08's context lemmas) reads it; ToModel is a function of the
+         meaning.  Proofs/PrintSem.v, PrintWeave.v, PrintLex.v, PrintText.v.
+     (b) decimal text is a normal form: to_string (of_string (to_string q)) = to_string q
+         (C09_decimal_normal_form), and a function of the value (C09_decimal_string_of_value);
+         model layer, builder, sort and printer commute with re-reading the quantities; the
+         checker (C09_check_sees_values) and the whole balance pipeline -- ComputePrices,
+         Valuate, Filter, CloseAccounts, Query.Into, the sort and the CSV and text renderers --
+         see the VALUES of quantities only (C09_balance_sees_values): a generic simulation of
+         Processor.Process under value-equal quantities; Mul/Sub/Cmp by values, Truncate and
+         DivRound by the arithmetic of big.Int.Quo (C09_div_of_values).
+         Proofs/DecNormalForm.v, CheckQuant.v, PrintRequant.v, QuantSim.v, QuantNum.v,
+         QuantReport.v, QuantStages.v, QuantValue.v, QuantText.v, QuantPrint.v.
+     (c) printing permutes the denoted directives (C09_printed_is_permutation; then C05 gives
+         check invariance), the builder gives the printed days back (C09_builder_of_printed):
+         the journal's days with each day's transactions sorted, so C05's stage lemmas give the
+         same reports without its price exclusion (C09_printed_same_reports); transaction.Compare
+         is a total preorder and the sort idempotent (C09_sort_idem).
+         Proofs/PrintRegroup.v, TxnOrder.v, PrintNormal.v, PrintReportsDirect.v.
+   NOT PROVED / weaker than one might wish:
+     - for failing balance runs only "both fail" ([~]), not the same error.
+   Kept from before: layer 0 (the pinned printer is refuted; the repaired one passes on the
+   witness and on a worked example, vm_compute through the model's parser), layer 1 (per
+   directive at the model level), the model-level statements on [denote], and the exact
+   difference of the two printers. *)
 From Coq Require Import ZArith List Bool.
 From Knut Require Import Model.Bytes Model.Scanner Model.Parser.
 From Knut Require Import Model.Str Model.Dec Model.Date Model.Account Model.Ledger Model.Journal
      Model.Report Model.JPrinter Model.Cli Model.ToModel.
 From Knut Require Import Spec.TableSpec Spec.PrintSpec.
 From Knut Require Import Proofs.PrintProofs.
+From Coq Require Import Permutation.
+From Knut Require Import Model.Check Proofs.OrderCmd Proofs.DecEqProofs Proofs.DecNormalForm Proofs.TxnOrder Proofs.CheckQuant Proofs.PrintRegroup
+     Proofs.PrintRequant Proofs.PrintNormal Proofs.PrintLex Proofs.PrintText Proofs.PrintLexInput
+     Proofs.QuantSim Proofs.QuantNum Proofs.QuantReport Proofs.QuantValue Proofs.QuantPrint Proofs.PrintReportsDirect.
 Import ListNotations.
 Open Scope Z_scope.
+
+(* ------------------------------------------------------------------ the property, over the text *)
+
+(* The text knut print writes is read back as a journal that knut check accepts ... *)
+Theorem C09_accepted : forall l ss text,
+  input_lex ss -> printed (print_cmd l) ss text ->
+  exists ss', reparse text = MOk ss' /\ accepted l ss'.
+Proof.
+  intros l ss text HL Hp. destruct (print_normal_form l ss text (input_lex_ok ss HL) Hp) as (ss' & H1 & H2 & _).
+  exists ss'. split; assumption.
+Qed.
+Print Assumptions C09_accepted.
+
+(* ... and that knut print writes again byte for byte *)
+Theorem C09_idem : forall l ss text,
+  input_lex ss -> printed (print_cmd l) ss text ->
+  exists ss', reparse text = MOk ss' /\ accepted l ss' /\ printed (print_cmd l) ss' text.
+Proof. intros l ss text HL Hp. exact (print_normal_form l ss text (input_lex_ok ss HL) Hp). Qed.
+Print Assumptions C09_idem.
+
+Theorem C09_normal_form : forall l ss text,
+  input_lex ss -> printed (print_cmd l) ss text -> normal_form (print_cmd l) l text.
+Proof. intros l ss text HL Hp. exact (print_normal_form l ss text (input_lex_ok ss HL) Hp). Qed.
+Print Assumptions C09_normal_form.
+
+(* ... and whose balance reports are the journal's: the same CSV and text bytes, or both commands
+   fail (the error of a failing run may differ, C05_error_depends_on_order), for every
+   configuration (window, interval, --last, --diff, --close, valuation, mappings, filters, both
+   checkers, thousands, rounding). *)
+Theorem C09_same_reports : forall l ss text,
+  input_lex ss -> printed (print_cmd l) ss text ->
+  exists ss', reparse text = MOk ss' /\
+    (forall cfg, ceq eq (balance_csv cfg ss') (balance_csv cfg ss)) /\
+    (forall cfg tc, ceq eq (balance_text cfg tc ss') (balance_text cfg tc ss)).
+Proof. intros l ss text HL Hp. exact (print_same_reports l ss text (input_lex_ok ss HL) Hp). Qed.
+Print Assumptions C09_same_reports.
+
+(* the three statements for one and the same re-read journal *)
+Theorem C09_roundtrip : forall l ss text,
+  input_lex ss -> printed (print_cmd l) ss text ->
+  exists ss', reparse text = MOk ss' /\ accepted l ss' /\ printed (print_cmd l) ss' text /\
+    (forall cfg, ceq eq (balance_csv cfg ss') (balance_csv cfg ss)) /\
+    (forall cfg tc, ceq eq (balance_text cfg tc ss') (balance_text cfg tc ss)).
+Proof. intros l ss text HL Hp. exact (print_roundtrip l ss text (input_lex_ok ss HL) Hp). Qed.
+Print Assumptions C09_roundtrip.
+
+(* the hypothesis is satisfiable: the journal of C09_example (Unicode account name, two-line
+   description, accrual, targets) *)
+Example C09_input_lex_example : input_lex x_journal.
+Proof. exact x_journal_input_lex. Qed.
+
+(* it implies the condition on the loaded journal that the proofs use, and C04/C05's condition on
+   account names *)
+Theorem C09_lex_ok_of_input : forall ss,
+  input_lex ss -> sd_syntactic ss /\ forall ds, parse_directives ss = MOk ds -> Forall mdir_lex ds.
+Proof. exact input_lex_ok. Qed.
+Print Assumptions C09_lex_ok_of_input.
+
+(* ------------------------------------------------------------------ (a) the text is read back *)
+
+(* for every day list whose directives have printable leaves: parser + ToModel on journal.Print's
+   text give the printed sequence (date order; per day prices, opens, sorted transactions,
+   assertions, closes) with every quantity re-read from its decimal text *)
+Theorem C09_reparse_printed : forall days,
+  Forall mdir_lex (printed_model_dirs days) -> reparse (print_journal days) = MOk (map rq_sdir (printed_dirs days)).
+Proof. exact reparse_print_journal. Qed.
+Print Assumptions C09_reparse_printed.
+
+(* ------------------------------------------------------------------ (b) decimal text *)
+
+Theorem C09_decimal_normal_form : forall q x, of_string (to_string q) = Some x -> to_string x = to_string q.
+Proof. exact to_string_normal_form. Qed.
+Print Assumptions C09_decimal_normal_form.
+
+(* re-reading always succeeds, keeps the value and the text *)
+Theorem C09_reread : forall q,
+  of_string (to_string q) = Some (reread q) /\ dec_eqv (reread q) q /\ to_string (reread q) = to_string q.
+Proof. exact reread_spec. Qed.
+Print Assumptions C09_reread.
+
+(* every variant of the checker gives the same verdict on day lists that differ in the
+   representation of quantities only *)
+Theorem C09_check_sees_values : forall r D D', Forall2 day_q D D' ->
+  ((exists x, run_stage (check_proc_current r) check_init D = COk x) <->
+   (exists x, run_stage (check_proc_current r) check_init D' = COk x)).
+Proof. exact check_days_q. Qed.
+Print Assumptions C09_check_sees_values.
+
+(* Decimal.String is a function of the value *)
+Theorem C09_decimal_string_of_value : forall a b, dec_equal a b = true -> to_string a = to_string b.
+Proof. exact to_string_eqv. Qed.
+Print Assumptions C09_decimal_string_of_value.
+
+(* DivRound of value-equal arguments is the same record (Prices.Insert's 1/p, --thousands) *)
+Theorem C09_div_of_values : forall d d' d2 d2',
+  dec_equal d d' = true -> dec_equal d2 d2' = true -> div d d2 = div d' d2'.
+Proof. exact div_deqv. Qed.
+Print Assumptions C09_div_of_values.
+
+(* knut balance sees values only: two journals that load to the same period and to days that
+   agree in everything but the representation of quantities, prices and assertion amounts
+   ([day_v]) give the same CSV bytes -- or both fail -- for every configuration *)
+Theorem C09_balance_sees_values : forall cfg X X' b b',
+  load X = COk b -> load X' = COk b' ->
+  Forall2 day_v (b_days b) (b_days b') -> b_min b = b_min b' -> b_max b = b_max b' ->
+  ceq eq (balance_csv cfg X) (balance_csv cfg X').
+Proof. exact balance_csv_v. Qed.
+Print Assumptions C09_balance_sees_values.
+
+(* ------------------------------------------------------------------ (c) order *)
+
+Theorem C09_printed_is_permutation : forall ss ds,
+  parse_directives ss = MOk ds -> Permutation (printed_dirs (b_days (builder_of ds))) (denote ss).
+Proof. exact printed_dirs_perm. Qed.
+Print Assumptions C09_printed_is_permutation.
+
+(* Builder.Add over the printed sequence rebuilds exactly the printed days *)
+Theorem C09_builder_of_printed : forall ds,
+  builder_of (printed_model_dirs (b_days (builder_of ds))) =
+  mkBuilder (sort_days (b_days (builder_of ds))) (b_min (builder_of ds)) (b_max (builder_of ds)).
+Proof. exact builder_of_printed. Qed.
+Print Assumptions C09_builder_of_printed.
+
+(* the printed sequence has the journal's reports (no condition on the price declarations) *)
+Theorem C09_printed_same_reports : forall ss b,
+  sd_syntactic ss -> load ss = COk b ->
+  (forall cfg, ceq eq (balance_csv cfg ss) (balance_csv cfg (printed_dirs (b_days b)))) /\
+  (forall cfg tc, ceq eq (balance_text cfg tc ss) (balance_text cfg tc (printed_dirs (b_days b)))).
+Proof. exact reports_printed_dirs_direct. Qed.
+Print Assumptions C09_printed_same_reports.
+
+Theorem C09_sort_idem : forall days, sort_days (sort_days days) = sort_days days.
+Proof. exact sort_days_idem. Qed.
+Print Assumptions C09_sort_idem.
 
 (* ------------------------------------------------------------------ layer 0 *)
 
@@ -129,28 +275,28 @@ Print Assumptions C09_decimal_roundtrip.
 
 (* [denote ss]: the syntax-level directives of the model directives of ss, in order.  (The printed
    text denotes a regrouping of this list by day and kind with quantities re-read from their decimal
-   text: gaps (a)-(c) above.) *)
+   text: C09_reparse_printed, C09_printed_is_permutation above.) *)
 
-(* C09_accepted, partial: the denoted journal is accepted iff the journal is *)
-Theorem C09_accepted_partial : forall l ss,
+(* the denoted journal is accepted if the journal is *)
+Theorem C09_denote_accepted : forall l ss,
   accepted l ss -> accepted l (denote ss).
 Proof. exact accepted_denote. Qed.
-Print Assumptions C09_accepted_partial.
+Print Assumptions C09_denote_accepted.
 
-(* C09_idem, partial: printing the denoted journal gives the same bytes (both printers) *)
-Theorem C09_idem_partial : forall l ss text,
+(* printing the denoted journal gives the same bytes (both printers) *)
+Theorem C09_denote_printed : forall l ss text,
   (printed (print_cmd_pinned l) ss text -> printed (print_cmd_pinned l) (denote ss) text) /\
   (printed (print_cmd l) ss text -> printed (print_cmd l) (denote ss) text).
 Proof. exact printed_denote. Qed.
-Print Assumptions C09_idem_partial.
+Print Assumptions C09_denote_printed.
 
-(* C09_same_reports, partial: every balance report of the denoted journal is byte-identical *)
-Theorem C09_same_reports_partial : forall l ss,
+(* every balance report of the denoted journal is byte-identical *)
+Theorem C09_denote_same_reports : forall l ss,
   accepted l ss ->
   (forall cfg, balance_csv cfg (denote ss) = balance_csv cfg ss) /\
   (forall cfg tc, balance_text cfg tc (denote ss) = balance_text cfg tc ss).
 Proof. exact reports_denote. Qed.
-Print Assumptions C09_same_reports_partial.
+Print Assumptions C09_denote_same_reports.
 
 Theorem C09_denote_idem : forall l ss, accepted l ss -> denote (denote ss) = denote ss.
 Proof. exact denote_idem_accepted. Qed.
